@@ -8,6 +8,7 @@ import vlib
 import scenarios as SC
 import c14_pipeline as CP
 import c14_tissue as CT
+import c14_remesh as CRM
 
 PID = "C14"
 NAMESPACE = "Simu.C14"
@@ -15,7 +16,7 @@ THEOREMS = ["comp_equivariant", "pipeline_equivariant", "iterate_equivariant", "
             "kernel_translate", "forces_translate", "node00_translate", "node01_translate", "single10_translate",
             "single11_translate", "pair10_translate", "pair11_translate", "edge_length_translate", "new_node_translate",
             "volume_translate", "area_translate", "normal_translate"]
-GEN = ["Kernel", "Integrator", "RemeshConsts", "Forces", "Geometry", "CellCycle", "NodeNormals", "BroadPhase", "ContactRule"]
+GEN = ["Kernel", "Integrator", "RemeshConsts", "Forces", "Geometry", "CellCycle", "NodeNormals", "BroadPhase", "ContactRule", "Schedule"]
 SIZE = 1e-5
 STRICT_ITERS = 80     # connectivity must be identical up to this iteration; later flips of threshold decisions are rounding chaos
 
@@ -133,9 +134,19 @@ def run(ctx):
             V.fail_tie("proof", "leanchecker rejected SimuVerif.Properties.C14Tissue", log=log)
     tissue = {}
     CT.run_tissue(V, "thorough" if (tier == "thorough" or not proofT["ok"]) else "quick", seed, tissue)   # widens when a proof broke
+    # the assembled iteration of a single free cell THROUGH remeshing (refine_mesh + the rebase of save_mesh): Properties/C14Remesh.lean
+    proofR = CRM.prove_remesh()
+    for f in proofR["failures"]:
+        V.fail_tie("proof", "%s: %s" % (f["theorem"], f["reason"]), errors=proofR["errors"][:5])
+    if tier == "thorough" and proofR["ok"]:
+        ok, log = vlib.leanchecker("SimuVerif.Properties.C14Remesh")
+        if not ok:
+            V.fail_tie("proof", "leanchecker rejected SimuVerif.Properties.C14Remesh", log=log)
+    remesh = {}
+    CRM.run_remesh(V, "thorough" if (tier == "thorough" or not proofR["ok"]) else "quick", seed, remesh)      # widens when a proof broke
     r = vlib.Rng(seed)
     exe, rebuilt = SC.build("asan")
-    wide = tier == "thorough" or not (proof["ok"] and proofP["ok"] and proofT["ok"])
+    wide = tier == "thorough" or not (proof["ok"] and proofP["ok"] and proofT["ok"] and proofR["ok"])
     kinds = ["single", "separated", "adhering", "overlapping-mixed"]
     evaluations = 0
     distinct = set()
@@ -182,17 +193,19 @@ def run(ctx):
                 samples.append({"tissue": kind, "translation": t, "iterations": iters, "cells": ref[0]["ncells"] if ref else None})
     rcode, nviol = V.finish()
     cov = {
-        "obligations": proof["obligations"] + proofP["obligations"] + proofT["obligations"],
-        "discharged": proof["discharged"] + proofP["discharged"] + proofT["discharged"],
+        "obligations": proof["obligations"] + proofP["obligations"] + proofT["obligations"] + proofR["obligations"],
+        "discharged": proof["discharged"] + proofP["discharged"] + proofT["discharged"] + proofR["discharged"],
         "checker_cmd": "lake build SimuVerif.Properties.C14 SimuVerif.Audit.C14 (+ leanchecker in the thorough tier)",
         "trusted_base": vlib.TRUSTED_COMMON + [
             "the stages are assembled into one executable model of solver::run_iteration for a single free cell AND for tissues of interacting epithelial cells (contact search on the re-anchored grid, coupling pass, polarisation, node normals, forces, integrator), bit-identical to the real solver (1 thread) while no cell divides / is removed and all edges stay in the refinement band; tissueRun_translate / tissueRun_observables / domain_translate proved for all such tissues with closed meshes (hypotheses TissueSetup, Wf evaluated on every instance); outside that domain (remeshing, division, removal) only the stage theorems + the two-run oracle; the loops and bindings of Model/Tissue.lean are tied to the code by the differential run (single-thread search order), its arithmetic is Gen.*",
+            "the single free cell is also modelled THROUGH remeshing: refine_mesh (splits, collapses, swaps) and the rebase of save_mesh are steps of the assembled model (Model/PipelineR.lean on C01's Remesh.Cell), bit-identical to the real solver incl. slot numbering, edge index and free queues; refineMesh_translate / cellRunR_translate / cellRunR_observables / domainR_translate proved for every cell state on which the decidable hypotheses refineLive (no released node slot is read: node::reset writes the absolute position (0,0,0) there; evaluated on every executed pass, never false) and meshOk hold; outside: division, removal, more than one cell with remeshing, OpenMP order, rounding",
             "rounding is run-time only: allowed deviation per node = size*(1e-8 + iters*(20 eps (r+10) + 5 eps r^3)), r = offset/size <= 1e3 (the r^3 term is the cancellation of the volume determinants far from the origin)"],
-        "theorems": dict(list(proof["axioms"].items()) + list(proofP["axioms"].items()) + list(proofT["axioms"].items())),
-        "proof_failures": proof["failures"] + proofP["failures"] + proofT["failures"],
+        "theorems": dict(list(proof["axioms"].items()) + list(proofP["axioms"].items()) + list(proofT["axioms"].items()) + list(proofR["axioms"].items())),
+        "proof_failures": proof["failures"] + proofP["failures"] + proofT["failures"] + proofR["failures"],
         "assembled_tissue_iteration": tissue,
+        "assembled_iteration_with_remeshing": remesh,
         "assembled_single_cell_iteration": pipe.get("stats"), "translator": {k: v.get("sha256", v.get("error")) for k, v in gen.items()},
-        "evaluations": evaluations + tissue.get("oracle_runs", 0) + len(tissue.get("scenarios", [])), "distinct_nontrivial": len(distinct),
+        "evaluations": evaluations + tissue.get("oracle_runs", 0) + len(tissue.get("scenarios", [])) + remesh.get("oracle_runs", 0) + len(remesh.get("scenarios", [])), "distinct_nontrivial": len(distinct),
         "rule": "pairs of real solver runs (generated tissues: single cell, separated, adhering, overlapping cells of mixed types; 40-300 iterations, deterministic parameters) that differ by a translation of the input file (offset/size 1e-2 .. 1e3, random directions, one straddling the origin); distinct = distinct (tissue, offset ratio, swap flag)",
         "worst_deviation_over_size_by_ratio": worst_by_ratio, "late_connectivity_divergences_after_iteration_%d" % STRICT_ITERS: late_divergences, "repo_objects_rebuilt": rebuilt, "samples": samples,
     }
@@ -202,6 +215,8 @@ def run(ctx):
 
 def replay(ctx):
     inp = ((ctx["replay"] or {}).get("failing_input") or {}).get("input") or {}
+    if isinstance(inp, dict) and "lmin" in inp and inp.get("part") in ("oracle", "correspondence"):
+        return CRM.replay(ctx)
     if isinstance(inp, dict) and inp.get("part") in ("oracle", "correspondence"):
         return CT.replay(ctx)
     print(json.dumps(ctx["replay"], indent=1)[:3000])
